@@ -144,6 +144,36 @@ pub fn structure(kind: Kind, s: &[u8]) -> bool {
     }
 }
 
+fn port_too_big(s: &[u8], host: fn(&[u8]) -> bool) -> bool {
+    cut_at(s, b':', host, |p| {
+        is_port(p) && p.iter().fold(0u64, |a, b| a * 10 + u64::from(*b - b'0')) > 65535
+    })
+}
+
+/// The server-name component (cut anywhere the structure allows) carries a port above 65535.
+pub fn struct_big_port(kind: Kind, s: &[u8]) -> bool {
+    let big = |srv: &[u8]| port_too_big(srv, struct_host);
+    match kind {
+        Kind::Server => big(s),
+        Kind::User => delimited(s, b'@', |_| true, big),
+        Kind::Alias | Kind::RoomOrAlias => delimited(s, b'#', |_| true, big),
+        Kind::Event => delimited(s, b'$', |_| true, big),
+        Kind::Mxc => mxc(s, big, |_| true),
+        _ => false,
+    }
+}
+
+/// Types for which "required structure and no over-large port" must imply acceptance: all but
+/// those whose validators ask Unicode `char::is_alphanumeric`, which are included on ASCII input.
+pub fn tight_applies(kind: Kind, s: &[u8]) -> bool {
+    match kind {
+        Kind::SigningKeyVersion | Kind::Base64PublicKey | Kind::ClientSecret | Kind::KeyVersion | Kind::KeyBase64 => {
+            s.is_ascii()
+        }
+        _ => true,
+    }
+}
+
 /// Recommended grammar: every such identifier must be accepted.
 pub fn grammar(kind: Kind, s: &[u8]) -> bool {
     let alg = |a: &[u8]| {
